@@ -418,6 +418,8 @@ class ExprMixin:
                     return self.bind(c.ns[name], o.obj, c)
             if isinstance(o.obj, Obj) and o.obj.items is not None:
                 return self.native_method(o.obj.items, name, o.obj)
+            if isinstance(o.obj, Obj) and name in ("__init__", "__repr__", "__str__", "__eq__"):
+                return self.native_method(o.obj, name, o.obj)
             self.raise_builtin("AttributeError", "'super' object has no attribute '%s'" % name)
         if isinstance(o, FixedType):
             if name in ("width", "signed", "minval", "maxval"):
